@@ -243,7 +243,7 @@ impl Property for C04 {
             .boxed()
     }
     fn cases(tier: Tier) -> u32 {
-        tier.pick(5_000, 80_000)
+        tier.pick(25_000, 150_000)
     }
     fn check(s: &Scenario) -> CheckResult {
         check(s)
